@@ -57,13 +57,15 @@ def search(fn, tries=200):
             r["reproduced"] = True
             r["seed_used"] = SEED * 1000 + k
             return r
-    return {"reproduced": False, "tries": tries}
+    return {"reproduced": False, "tries": tries, "cases": tries}
 
 
 def mode_lwl(p):
     def one(seed):
         rs = np.random.RandomState(seed)
         C, D, N = rs.randint(1, 4), rs.randint(1, 4), rs.randint(1, 5)
+        if seed % 5 == 2:
+            C = int(rs.randint(5, 18))        # more components than the fan-in of a Dask reduction tree (4)
         m = mk(C, D, seed)
         x = rs.normal(size=(N, D)) * 2 + 3
         if seed % 5 == 4:
@@ -91,6 +93,8 @@ def mode_ll(p):
     def one(seed):
         rs = np.random.RandomState(seed)
         C, D, N = rs.randint(1, 4), rs.randint(1, 4), rs.randint(1, 5)
+        if seed % 5 == 2:
+            C = int(rs.randint(5, 18))        # more components than the fan-in of a Dask reduction tree (4)
         m = mk(C, D, seed)
         x = rs.normal(size=(N, D)) * 2 + 3
         if seed % 5 == 4:
@@ -144,7 +148,12 @@ def mode_tail(p):
                                       "variances": m.variances.tolist(), "sigmas_from_means": k},
                             "observed": got.tolist(), "expected": exp.tolist(),
                             "what": "a far-tail sample scored inside a %s with bulk samples does not get the finite correct value" % variant}
-    return search(one, 20)
+    r = search(one, 20)
+    if not r.get("reproduced"):
+        r2 = mode_ll(p)       # the reduction over the components itself: few and many components, NumPy / single / Dask
+        if r2.get("reproduced"):
+            return r2
+    return r
 
 
 def ref_estep(x, w, mu, v):
@@ -345,6 +354,13 @@ def mode_map_mstep(p):
             mm = ubm.means.copy()
             mm[-1] = 1000.0       # a component that receives no evidence
             ubm.means = mm
+        if seed % 4 == 2:
+            # the prior is itself an ADAPTED model: it carries a UBM of its own (the root of the chain), with other parameters
+            from bob.learn.em import GMMMachine as _G
+            root = mk(C, D, seed + 50)
+            chained = _G(C, trainer="map", ubm=root)
+            chained.means, chained.variances, chained.weights = ubm.means.copy(), ubm.variances.copy(), ubm.weights.copy()
+            ubm = chained
         prior = (ubm.weights.copy(), ubm.means.copy(), ubm.variances.copy())
         st = ref_estep(x, *prior)
         for um, uv, uw in itertools.product((True, False), repeat=3):
@@ -352,15 +368,23 @@ def mode_map_mstep(p):
                 continue        # the dispatch of the M-step, not the variance blend (recorded finding KF-MAP-VAR), is in question
             for r, alpha in ((4.0, 0.5), (None, 0.3)):
                 from bob.learn.em import GMMMachine
+                alpha_arr = None
+                if r is None and seed % 3 != 1:
+                    # the fixed ratio given per Gaussian, as an array the caller keeps (and may use for the next client)
+                    alpha_arr = np.full(C, alpha)
+                    alpha_keep = alpha_arr.copy()
                 if seed % 2:
                     # configured for MAP after construction (set_params / attribute assignment)
                     m = GMMMachine(C, ubm=ubm, update_means=um, update_variances=uv, update_weights=uw,
-                                   max_fitting_steps=1, map_relevance_factor=r, map_alpha=alpha)
+                                   max_fitting_steps=1, map_relevance_factor=r, map_alpha=alpha if alpha_arr is None else alpha_arr)
                     m.set_params(trainer="map")
                 else:
                     m = GMMMachine(C, trainer="map", ubm=ubm, update_means=um, update_variances=uv, update_weights=uw,
-                                   max_fitting_steps=1, map_relevance_factor=r, map_alpha=alpha)
+                                   max_fitting_steps=1, map_relevance_factor=r, map_alpha=alpha if alpha_arr is None else alpha_arr)
                 m.fit(x)
+                if alpha_arr is not None and not np.array_equal(alpha_arr, alpha_keep):
+                    return {"field": "map_alpha", "observed": alpha_arr.tolist(), "expected": alpha_keep.tolist(), "input": {"x": x.tolist(), "update_means": um},
+                            "what": "the per-Gaussian map_alpha array given to the MAP trainer was modified by fit()"}
                 w, mu, v = ref_map_mstep(prior, st, um, uv, uw, r, alpha, m.mean_var_update_threshold, m.variance_thresholds)
                 for nm, got, exp in (("weights", m.weights, w), ("means", m.means, mu), ("variances", m.variances, v)):
                     if p.get("fields") and nm not in p["fields"]:
@@ -419,6 +443,14 @@ def mode_fit_loop(p):
             j = rs.randint(1, 10)
             L[j + 1] = L[j] * (1 + rs.choice([0.0, 1e-6, -1e-6, 9e-6]))
         thr = rs.choice([None, 1e-5, 1e-3, 1e-12])
+        if seed % 3 == 0:
+            # positive average log-likelihoods (densities above 1: tightly clustered features), increasing, with big relative steps
+            L = list(off * (1 + np.cumsum(rs.uniform(0.02, 0.3, size=12))))
+        if seed % 3 != 1:
+            # a threshold just below / just above the relative change of some iteration: any other notion of "relative change"
+            # (another denominator, a dropped abs, an absolute difference) decides that iteration differently
+            k0 = int(rs.randint(2, 9))
+            thr = abs((L[k0 - 1] - L[k0]) / L[k0 - 1]) * float(rs.choice([0.97, 1.03]))
         mx = rs.choice([None, K]) if thr is not None else K
         calls = []
         real_m, real_e = g.m_step, g.e_step
@@ -485,7 +517,7 @@ def mode_history(p):
             elif op == 3:
                 m.variance_thresholds = float(rs.choice([1e-6, 0.5, 1.5]))
             elif op == 4:
-                m.variance_thresholds = rs.uniform(1e-3, 1.0, size=(D,) if rs.rand() < 0.5 else (C, D))
+                m.variance_thresholds = rs.uniform(1e-3, 3.0, size=[(D,), (C, D), (C, 1), (1, D)][rs.randint(4)])     # per feature, full, per component, row
             elif op == 5:
                 m = copy.deepcopy(m)
                 # a second machine is given this one's arrays (what the getters return) and is then modified: this one must not follow
@@ -543,8 +575,6 @@ def mode_starved(p):
             ok = (np.all(np.isfinite(m.means)) and np.all(np.isfinite(m.variances)) and np.all(np.isfinite(m.weights))
                   and np.all(m.variances >= np.broadcast_to(m.variance_thresholds, m.variances.shape)) and np.all(m.weights >= 0)
                   and np.all(np.isfinite(m.log_likelihood(x))))
-            if trainer == "map" and uv:
-                continue      # recorded finding KF-MAP-VAR concerns the value, not finiteness
             if not ok:
                 return {"input": {"x": x.tolist(), "update": [um, uv, uw]}, "observed": {"means": m.means.tolist(), "variances": m.variances.tolist(), "weights": m.weights.tolist()},
                         "what": "non-finite or invalid parameters after training with a starved component"}
@@ -645,6 +675,21 @@ def mode_affine(p):
             u2, m2 = run(a * x + b, a * base.means + b, a ** 2 * base.variances, 1e-12 * np.min(a ** 2))
             if not close(u2.log_likelihood(a * x + b), u1.log_likelihood(x) - np.sum(np.log(np.abs(a))), 1e-8):
                 return {"what": "log-likelihoods do not shift by -sum(log|a|) under x -> a x + b"}
+            # the same for features far from the origin (time stamps, absolute temperatures: offset/std ~ 1e7), scored and accumulated
+            # as NumPy AND as Dask arrays: the value is the value near the origin (tolerance 1e-5: float64 leaves ~1e-8 here)
+            if trainer == "ml":
+                import dask.array as da
+                far = np.array([1e7, -3e6, 5e6])[:D]
+                uf = GMMMachine(C)
+                uf.variance_thresholds = 1e-12
+                uf.weights, uf.means, uf.variances = base.weights.copy(), base.means + far, base.variances.copy()
+                ref_ll0, ref_n = u1.log_likelihood(x), u1.acc_stats(x).n
+                for nm_, data in (("numpy", x + far), ("dask", da.from_array(x + far, chunks=(7, D)))):
+                    got_ll, got_n = np.asarray(uf.log_likelihood(data)), np.asarray(uf.acc_stats(data).n)
+                    if not close(got_ll, ref_ll0, 1e-5) or not close(got_n, ref_n, 1e-5):
+                        return {"input": {"shift": far.tolist(), "variant": nm_, "x": x.tolist()}, "observed": got_ll.tolist(), "expected": ref_ll0.tolist(),
+                                "what": "log-likelihood / occupations of %s input change when features and means are shifted far from the origin "
+                                        "(max |dll| = %.3g)" % (nm_, float(np.max(np.abs(got_ll - ref_ll0))))}
             if trainer == "map":
                 checks = (("means", a * m1.means + b), ("weights", m1.weights))     # MAP variances: recorded finding KF-MAP-VAR
             else:
